@@ -1,5 +1,6 @@
 import PEval.Driver.Util
 import PEval.Model.Matching
+import PEval.Model.MatchDispatch
 /-! Driver handler for C01 (and, through `C02.lean`, C02): runs `Matching.getObjectResults`.
 
 Request: `{"op":"match","policy":"DEFAULT|ALLOW_UNKNOWN|ALLOW_ANY","mode":"center|plane|iou2d|iou3d",
@@ -7,7 +8,12 @@ Request: `{"op":"match","policy":"DEFAULT|ALLOW_UNKNOWN|ALLOW_ANY","mode":"cente
 "est_labels":[…],"est_frames":[…],"gt_labels":[…],"gt_frames":[…],"vals":[["p/q"…]…]}`
 (`vals[i][j]` = the real `MatchingMethod.value` of estimate i and ground truth j, exactly).
 Response: `{"results":[[i,j|null]…],"stage1":k}` (+ `"table":[[[score|null,valid]…]…]` when
-`"want_table":true`) or `{"err":kind}`. -/
+`"want_table":true`) or `{"err":kind}`.
+
+Request `"op":"matchx"` = the same fields plus what the dispatch at the top of `get_object_results` reads:
+`"is2d":bool,"uuid_first":bool,"est_tl":[bool…],"est_uuid":[str|null…],"est_roi_none":[bool…]` and the
+same three for `gt_`; runs `MatchDispatch.getObjectResultsX` and adds `"path":"geometric|tlr|id|early"`
+to the response (the table only on the geometric path). -/
 open Lean
 
 namespace PEval.Driver.C01
@@ -72,6 +78,46 @@ def tableJson (c : Cfg) (sc : Scene) : Json :=
   jList (fun i => jList (fun k => Json.arr #[jOptRat (t.score i k), Json.bool (t.valid i k)])
     (List.range sc.gts.length)) (List.range sc.ests.length)
 
+
+section matchx
+open PEval.MatchDispatch
+
+def boolList (j : Json) (k : String) : Except String (List Bool) := do
+  (← getArr j k).toList.mapM fun x => match x with
+    | .bool b => pure b
+    | _ => throw s!"{k}: expected bool"
+
+def optStrList (j : Json) (k : String) : Except String (List (Option String)) := do
+  (← getArr j k).toList.mapM fun x => match x with
+    | .null => pure none
+    | .str s => pure (some s)
+    | _ => throw s!"{k}: expected string or null"
+
+def decodeSide (j : Json) (p : String) (os : List Obj) : Except String (List ObjX) := do
+  let tl ← boolList j (p ++ "_tl")
+  let uu ← optStrList j (p ++ "_uuid")
+  let rn ← boolList j (p ++ "_roi_none")
+  if tl.length != os.length || uu.length != os.length || rn.length != os.length then
+    throw "matchx: per-object lists differ in length"
+  pure (List.zipWith (fun (o : Obj) (t : Bool × Option String × Bool) =>
+      ({ label := o.label, tl := t.1, frame := o.frame, uuid := t.2.1, roiNone := t.2.2 } : ObjX))
+    os (List.zip tl (List.zip uu rn)))
+
+def decodeSceneX (j : Json) : Except String SceneX := do
+  let sc ← decodeScene j
+  let is2d ← getBool j "is2d"
+  let es ← decodeSide j "est" sc.ests
+  let gs ← decodeSide j "gt" sc.gts
+  pure { is2d := is2d, ests := es, gts := gs, val := sc.val }
+
+def pathName : Option Path → String
+  | none => "early"
+  | some .tlr => "tlr"
+  | some .byId => "id"
+  | some .geometric => "geometric"
+
+end matchx
+
 def handle : Json → Except String Json := fun j => do
   let op ← getStr j "op"
   match op with
@@ -87,6 +133,21 @@ def handle : Json → Except String Json := fun j => do
     | .ok rs =>
       pure (Json.mkObj ([("results", jList resJson rs), ("stage1", jNat (stage1Count c sc))] ++ tbl))
     | .error k => pure (Json.mkObj [("err", k)])
+  | "matchx" =>
+    let c ← decodeCfg j
+    let sx ← decodeSceneX j
+    let uf ← getBool j "uuid_first"
+    let wantTable := match getBool j "want_table" with
+      | .ok b => b
+      | .error _ => false
+    let path := MatchDispatch.pathOf sx
+    let sc := MatchDispatch.toScene sx
+    let tbl : List (String × Json) :=
+      if wantTable && path == some .geometric then [("table", tableJson c sc)] else []
+    let pj : List (String × Json) := [("path", Json.str (pathName path))]
+    match MatchDispatch.getObjectResultsX uf c sx with
+    | .ok rs => pure (Json.mkObj ([("results", jList resJson rs)] ++ pj ++ tbl))
+    | .error k => pure (Json.mkObj ([("err", Json.str k)] ++ pj))
   | o => throw s!"unknown op {o}"
 
 end PEval.Driver.C01
